@@ -22,6 +22,13 @@ def tasks(tier):
             T.append(Task(cls, 'updateCumulativeTimes', 0, cfg))
             T.append(Task(cls, 'precomputeTimePowers', 0, cfg))
             T.append(Task(cls, 'precomputePointDiffs', 0, cfg))
+            if cls == 'CubicSplineND':
+                for d in range(D):
+                    T.append(Task(cls, 'solveSpline', 0, cfg, gen_options={'focus': d}, label='DIM=%d,coord=%d' % (D, d)))
+            else:
+                T.append(Task(cls, 'solveInternalDerivatives', None, cfg))
+                for d in range(D):
+                    T.append(Task(cls, 'solveQuintic' if cls == 'QuinticSplineND' else 'solveSepticSpline', 0, cfg, gen_options={'focus': d}, label='DIM=%d,coord=%d' % (D, d)))
     return T
 
 
